@@ -358,3 +358,42 @@ Proof. exact c07_stack_segs_agree. Qed.
 Check C07_source_tables :
   agrees src_STACK_SEGS (N.of_nat JsonPtr.STACK_SEGS).
 Print Assumptions C07_source_tables.
+
+(** the segment / mount functions of the model are the ones re-translated from the Rust source on this
+    run (bin/rs2v, string mode: Gen/PointerGen.v, Proofs/PointerGenAgree.v): each rendering returns
+    [Ok] of the model's value on every byte string -- no panic (the 16-slot stack array, [count += 1],
+    [&stack[..count]]), same result; [SHandled segs]: the ONE [repe_handle] call gets exactly [segs];
+    the hypothesis of [relative_pointer] says that the cut [&path[root.len()..]] made when [path] starts
+    with [root] is a char boundary, which holds between any two [&str] *)
+From RepeV Require Import Base.GenStrPrelude Gen.PointerGen Proofs.PointerGenAgree.
+
+Theorem C07_source_translation :
+  agrees1 gen_jp_parse (fun p => Ok (JsonPtr.parse p)) /\
+  agrees1 gen_struct_segments (fun rel => Ok (SHandled (JsonPtr.struct_segments rel))) /\
+  agrees2 gen_registry_matches (fun pre path => Ok (Router.matches pre path)) /\
+  agrees2 gen_struct_matches (fun root path => Ok (Router.matches root path)) /\
+  agrees2 gen_pointer_for (fun pre path => Ok (Router.registry_pointer pre path)) /\
+  agrees1 gen_registry_prefix (fun prefix => Ok (Router.norm_prefix prefix)) /\
+  agrees1 gen_struct_root (fun root => Ok (Router.norm_root root)) /\
+  match gen_relative_pointer with
+  | Some f => forall root path,
+      (s_starts_with root path = true -> is_char_boundary path (len_n root) = true) ->
+      f root path = Ok (Router.struct_relative root path)
+  | None => True
+  end.
+Proof. exact c07_source_translation. Qed.
+Check C07_source_translation :
+  agrees1 gen_jp_parse (fun p => Ok (JsonPtr.parse p)) /\
+  agrees1 gen_struct_segments (fun rel => Ok (SHandled (JsonPtr.struct_segments rel))) /\
+  agrees2 gen_registry_matches (fun pre path => Ok (Router.matches pre path)) /\
+  agrees2 gen_struct_matches (fun root path => Ok (Router.matches root path)) /\
+  agrees2 gen_pointer_for (fun pre path => Ok (Router.registry_pointer pre path)) /\
+  agrees1 gen_registry_prefix (fun prefix => Ok (Router.norm_prefix prefix)) /\
+  agrees1 gen_struct_root (fun root => Ok (Router.norm_root root)) /\
+  match gen_relative_pointer with
+  | Some f => forall root path,
+      (s_starts_with root path = true -> is_char_boundary path (len_n root) = true) ->
+      f root path = Ok (Router.struct_relative root path)
+  | None => True
+  end.
+Print Assumptions C07_source_translation.
